@@ -193,10 +193,18 @@ var failWithStreamError bool
 // failInParse: the failing step of the feature is Parse (initiator side).
 var failInParse bool
 
+// failInList: the failing step of the feature is List (receiving side).
+var failInList bool
+
 func failingVoluntary() xmpp.StreamFeature {
 	return xmpp.StreamFeature{
 		Name: xml.Name{Space: "urn:vf", Local: "f"},
 		List: func(ctx context.Context, e xmlstream.TokenWriter, start xml.StartElement) (bool, error) {
+			if failInList {
+				// the feature cannot advertise itself (eg. its back end is unavailable)
+				stepFailed = true
+				return false, fmt.Errorf("voluntary feature cannot list itself")
+			}
 			e.EncodeToken(start)
 			return false, e.EncodeToken(start.End())
 		},
@@ -329,6 +337,27 @@ var handshakes = []handshake{
 		failWithStreamError = true
 		defer func() { failWithStreamError = false }()
 		return handshakeByName("failing-voluntary-then-bind-receiver").run(f)
+	}},
+	{"failing-voluntary-list-first-receiver", func(f fault) result {
+		failInList = true
+		defer func() { failInList = false }()
+		return handshakeByName("failing-voluntary-then-bind-receiver").run(f)
+	}},
+	{"failing-voluntary-list-last-receiver", func(f fault) result {
+		failInList = true
+		defer func() { failInList = false }()
+		stepFailed = false
+		r := receiver(xmpp.Secure|xmpp.Authn, false, func() []xmpp.StreamFeature { return []xmpp.StreamFeature{xmpp.BindResource(), failingVoluntary()} }, func(step int, w string) string {
+			switch step {
+			case 0:
+				return hdr("jabber:client", "me@example.com", "example.com")
+			case 1:
+				return `<iq type='set' id='b1'><bind xmlns='` + bindNS + `'/></iq>`
+			}
+			return ""
+		})(f)
+		r.stepErr = stepFailed
+		return r
 	}},
 	{"sasl-bind-receiver", receiver(xmpp.Secure, false, saslBindServer, func(step int, w string) string {
 		switch step {
